@@ -45,6 +45,20 @@ def drop_not(node):
     return False
 
 
+def naive_cost(t, dom, mult=1):
+    """number of quantifier-body instances the naive evaluator (Sigma0!Ground0) visits"""
+    if isinstance(t, list):
+        return sum(naive_cost(x, dom, mult) for x in t)
+    if not isinstance(t, dict):
+        return 0
+    if t.get("k") in ("forall", "exists"):
+        m = mult
+        for v in t["vars"]:
+            m *= dom[v["s"]]
+        return m + naive_cost(t["f"], dom, m)
+    return sum(naive_cost(v, dom, mult) for v in t.values() if isinstance(v, (dict, list)))
+
+
 def sem_verdicts(ctx, prop, recs):
     ctx.prop = prop
     vs = V.tlc_validate(ctx, "TraceSem", recs, {"VERIF_PROP": prop}, workers=4)
@@ -126,6 +140,31 @@ def run_selftest(ctx):
     acc, _ = p_prover.validate(ctx, [v for _, v in variants])
     for name, v in variants:
         expect(f"C10 rejects: {name}", v["id"] not in acc)
+    # ---- the machinery itself: abstract value domain (MCValues) and scheduled-vs-naive evaluation (MC_Eval of the plan)
+    ctx.prop = "SELF"
+    vals, out = V.run_tlc(ctx, "MCValues", "MCValues.cfg", {}, workers=4, timeout=900)
+    expect("abstract values: arithmetic, order and Kleene connectives sound for every concretisation (MCValues)", "No error has been found" in out)
+    cases = [{"id": f"t{i}", "prog": p} for i, p in enumerate(C.TABLE_PROGRAMS)]
+    cases += V.tlc_generate(ctx, "sysrule", 60, 2, {"GEN_STRIDE": 23})
+    cases += V.tlc_generate(ctx, "program", 40, 2)
+    recs = [r for r in V.run_harness(ctx, "translate", cases) if r["kind"] == "rule"]
+    small = []
+    for i, r in enumerate(recs):
+        ext = i % 2 == 1
+        wlo, whi = (-1, 1) if i % 3 else (0, 2)
+        dom = {"i": whi - wlo + 3, "s": 2, "g": whi - wlo + 3 + 2 + 2}
+        if naive_cost(r["tau"], dom) * V.tree_size(r["tau"]) > 4000000:
+            continue
+        r["pp"] = {"wlo": wlo, "whi": whi, "lo": max(wlo, -1), "hi": whi, "minsyms": 1, "nbs": 1, "ext": ext}
+        small.append(r)
+    vs = [v for v in V.tlc_validate(ctx, "TraceSem", small, {"VERIF_PROP": "SELF"}, workers=8) if v["check"] == "SELF.scheduled_vs_naive"]
+    nd = sum(1 for v in vs if v["v"] == "DISAGREE")
+    log(f"  scheduled vs naive evaluator: {len(vs)} of {len(recs)} tau* formulas (naive cost bound), {sum(v['n'] for v in vs)} evaluations, "
+        f"{sum(v['unk'] for v in vs)} with an unknown side, {sum(v['ident'] for v in vs)} identical groundings, {nd} disagreements")
+    for v in vs:
+        if v["v"] == "DISAGREE":
+            log("   ", v["id"], V.wit_str(v))
+    expect("scheduled evaluator (definition binding, conjunct scheduling) agrees with the naive evaluator on anthem's tau* output", len(vs) >= 40 and nd == 0)
     ok = all(x for _, x in results)
     print(f"selftest: {sum(1 for _, x in results if x)}/{len(results)} expectations met")
     return 0 if ok else 1
